@@ -1038,3 +1038,70 @@ class _Null(Base):
 
     def ref(self, case, x):
         return np.zeros(int(np.prod(_sizes(case["tdoms"]))), dtype=x.dtype)
+
+
+@register("LinearEinsum")
+class _Einsum(Base):
+    dtypes = "fc"
+
+    def gen(self, rng, quick):
+        pool = "ijkl"
+        nlet = rng.randint(1, 3)
+        letters = list(pool[:nlet])
+        sub = {}
+        for c in letters:                     # one sub-domain per letter (may have two axes)
+            if rng.random() < 0.25:
+                sub[c] = U.sub_json(dict(kind="U", shape=[rng.randint(1, 2), rng.randint(1, 2)]))
+            elif rng.random() < 0.5:
+                sub[c] = U.sub_json(dict(kind="RG", shape=[rng.randint(1, 3)], dist=[rng.choice([0.5, 1.0])], harmonic=False))
+            else:
+                sub[c] = U.sub_json(dict(kind="U", shape=[rng.randint(1, 3)]))
+        nops = rng.randint(1, 2)
+        keys = rng.sample(["a", "b", "m"], nops)
+        cplx = rng.random() < 0.4
+        ops = {}
+        for k in keys:
+            ls = [rng.choice(letters) for _ in range(rng.randint(1, 2))]
+            if len(set(ls)) < len(ls):
+                ls = ls[:1]
+            n = int(np.prod([U.sub_size(sub[c]) for c in ls]))
+            ops[k] = dict(sub="".join(ls), data=_vals_json(_rand_vals(rng, n, cplx)))
+        xs = rng.sample(letters, rng.randint(1, len(letters)))
+        present = sorted(set("".join(o["sub"] for o in ops.values())) | set(xs))
+        out = rng.sample(present, rng.randint(0, len(present)))
+        return dict(cls=self.name, letters={c: sub[c] for c in letters}, ops=ops, xsub="".join(xs), out="".join(out),
+                    explicit_order=rng.random() < 0.5, dtype="c" if cplx else _pick_dtype(rng, "fc"))
+
+    def malformed(self, rng):
+        c = self.gen(rng, True)
+        c["out"] = c["out"] + "z"
+        return c
+
+    def _subscripts(self, case):
+        keys = sorted(case["ops"])
+        return ",".join([case["ops"][k]["sub"] for k in keys] + [case["xsub"]]) + "->" + case["out"], keys
+
+    def build(self, case):
+        ift = _ift()
+        sscr, keys = self._subscripts(case)
+        L = case["letters"]
+        mf = {}
+        for k in keys:
+            o = case["ops"][k]
+            d = ift.DomainTuple.make(tuple(U.build_sub(L[c]) for c in o["sub"]))
+            mf[k] = ift.makeField(d, _vals_np(o["data"]).reshape(d.shape))
+        mf = ift.MultiField.from_dict(mf)
+        dom = ift.DomainTuple.make(tuple(U.build_sub(L[c]) for c in case["xsub"]))
+        return ift.LinearEinsum(dom, mf, sscr, key_order=tuple(keys) if case["explicit_order"] else None)
+
+    def line(self, case):
+        sscr, keys = self._subscripts(case)
+        return dict(cls=self.name, sizes=[[c, U.sub_size(U.sub_json(d))] for c, d in case["letters"].items()],
+                    subs=[[case["ops"][k]["sub"], [U.cq(v) for v in _vals_np(case["ops"][k]["data"])]] for k in keys],
+                    xsub=case["xsub"], out=case["out"])
+
+    def ref(self, case, x):
+        sscr, keys = self._subscripts(case)
+        sz = {c: U.sub_size(d) for c, d in case["letters"].items()}
+        arrs = [_vals_np(case["ops"][k]["data"]).reshape([sz[c] for c in case["ops"][k]["sub"]]) for k in keys]
+        return np.einsum(sscr, *arrs, x.reshape([sz[c] for c in case["xsub"]])).reshape(-1)
